@@ -352,6 +352,18 @@ theorem curDel_mapK (d : Db K' V) (p : CPos) : curDel (Db.mapK f d) p = Db.mapK 
     simp only [curDel, curRec_mapK, Option.isSome_map, delAt_mapK]
     split <;> rfl
 
+theorem filter_mapRecs (q : K × V → Bool) (l : List (K' × V)) :
+    (mapRecs f l).filter q = mapRecs f (l.filter fun x => q (f x.1, x.2)) := by
+  simp only [mapRecs, List.filter_map]; rfl
+
+theorem any_mapRecs (q : K × V → Bool) (l : List (K' × V)) :
+    (mapRecs f l).any q = l.any fun x => q (f x.1, x.2) := by
+  simp only [mapRecs, List.any_map]; rfl
+
+theorem getLast?_mapRecs (l : List (K' × V)) :
+    (mapRecs f l).getLast? = l.getLast?.map fun x => (f x.1, x.2) := by
+  simp only [mapRecs, List.getLast?_map]
+
 /-! ### invariants -/
 
 theorem desc_mapRecs (l : List (K' × V)) : Desc gt (mapRecs f l) ↔ Desc (pull f gt) l := by
